@@ -14,7 +14,7 @@ RULE = ("scenario = (items preloaded in the memcached model, client configuratio
         "recorded with unsplit delivery, then the same scenario is re-run with the stream cut at given positions "
         "(optionally an EINTR before every piece, reported in rotation as InterruptedError, as a socket wrapper's own OSError subclass with errno EINTR, and as ssl.SSLError with errno EINTR). Corpus: get/gets/gat/gats hits and misses; values containing CR LF, "
         "END, VALUE lines, a lone CR at the end, empty values; multi-key replies; value sizes 0,1,4090..4100,8190..8194,"
-        "100000; store/delete/incr/touch/version/flush lines; set_many/delete_many multi-line replies; stats (also "
+        "100000; store/delete/incr/touch/version/flush lines; set_many/delete_many multi-line replies, also with mixed outcomes (NOT_STORED between STORED lines, a SERVER_ERROR refusal in the middle or at the end of a batch); stats (also "
         "cachedump ITEM lines and valueless STATs); raw_command with end tokens CRLF, END CRLF, LF CR LF END CR LF and "
         "a token whose prefix occurs inside the body, pipelines of several commands through one raw_command (replies that start with STORED / DELETED / OK / TOUCHED / a number and run on to the last command's end token), and ERROR / CLIENT_ERROR / SERVER_ERROR lines sent in answer to raw_command with each of these end tokens (also one that ends the error line itself); plus Hypothesis-drawn values/keys; and the same calls after a history of 1-24 earlier fetches (empty, small, large values) on the same client object, also with the connection closed / quit / dropped after an error in between, so that the reply under test arrives on the client's second or third connection. Segmentations: every subset "
         "of cut positions for streams <= 14 bytes (thorough 16); all 1-, 2- (and thorough 3-) cut segmentations for "
@@ -46,6 +46,8 @@ def _env(scn, schedule):
         srv.store[k] = Item(v, f, 0, srv._next_cas(), srv.clock.now)
     if scn.get("cluster") is not None:
         srv.cluster_config = scn["cluster"]
+    if scn.get("refuse"):
+        srv.refuse.update({k.encode() if isinstance(k, str) else k: v for k, v in scn["refuse"].items()})
     return env
 
 
@@ -236,6 +238,15 @@ def corpus(sizes=(0, 1, 4090, 4094, 4095, 4096, 4097, 4098, 8190, 8192, 8194, 10
                  cluster=b"12\nh1.example.com|10.0.0.1|11211 h2.example.com|10.0.0.2|11211\n",
                  expect=b"CONFIG cluster 0 65\r\n12\nh1.example.com|10.0.0.1|11211 h2.example.com|10.0.0.2|11211"))
     out.append(S({"op": "raw_command", "command": b"get big", "end": b"END\r\n"}, [(b"big", b"y" * 5000, 0)], expect=b"VALUE big 0 5000\r\n" + b"y" * 5000 + b"\r\n"))
+    # batches with mixed outcomes: runs of equal reply lines broken by a different one, a refusal in the middle
+    ns = {"b": "not-stored"}
+    out.append(S({"op": "set_many", "values": {"a": b"1", "b": b"2", "c": b"3"}, "noreply": False}, [], expect=["b"], refuse=ns))
+    out.append(S({"op": "set_many", "values": {"b": b"2", "a": b"1", "c": b"3", "d": b"4"}, "noreply": False}, [], expect=["b"], refuse=ns))
+    out.append(S({"op": "set_many", "values": {"a": b"1", "c": b"3", "b": b"2"}, "noreply": False}, [], expect=["b"], refuse=ns))
+    out.append(S({"op": "set_many", "values": {"a": b"1", "b": b"2", "e": b"5", "c": b"3"}, "noreply": False}, [], expect=["b", "e"], refuse={"b": "not-stored", "e": "not-stored"}))
+    out.append(S({"op": "set_many", "values": {"a": b"1", "b": b"2", "c": b"3"}, "noreply": False}, [], refuse={"b": "too-large"}))
+    out.append(S({"op": "set_many", "values": {"a": b"1", "b": b"2", "c": b"3"}, "noreply": False}, [], refuse={"c": "oom"}))
+    out.append(S({"op": "delete_many", "keys": ["a", "b", "c", "d"], "noreply": False}, [(b"a", b"x", 0), (b"c", b"x", 0)], expect=True))
     # several commands sent through one raw_command: the reply starts with a one-line answer (STORED, DELETED, OK, TOUCHED,
     # a number ...) and goes on until the end token of the last command
     out.append(S({"op": "raw_command", "command": b"set k 0 0 1\r\nv\r\nget k", "end": b"END\r\n"}, [], expect=b"STORED\r\nVALUE k 0 1\r\nv\r\n"))
